@@ -19,10 +19,19 @@ from luqum.parser import parser
 VALUE_LIKE = (T.Word, T.Phrase, T.Regex, T.Range, T.From, T.To, T.Fuzzy, T.Proximity, T.Boost, T.FieldGroup)
 
 
-def ill_formed_reasons(n, parent=None):
+def in_field_position(parents):
+    """a field group is in place when it is what the field name applies to; boosts may sit in between (field:(a b)^2)"""
+    for q in reversed(parents):
+        if not isinstance(q, T.Boost):
+            return isinstance(q, T.SearchField)
+    return False
+
+
+def ill_formed_reasons(n, parents=()):
     """independent reading of the statement: the listed ill-formed constructs, anywhere in the tree"""
     out = []
     nm = type(n).__name__
+    parent = parents[-1] if parents else None
     if nm == "Word" and re.search(r"\s", n.value):
         out.append("word with whitespace")
     if nm == "Fuzzy":
@@ -39,10 +48,10 @@ def ill_formed_reasons(n, parent=None):
             out.append("non-value field expression")
     if nm == "Group" and isinstance(parent, T.SearchField):
         out.append("group directly in a field")
-    if nm == "FieldGroup" and not isinstance(parent, T.SearchField):
+    if nm == "FieldGroup" and not in_field_position(parents):
         out.append("field group outside a field")
     for c in n.children:
-        out.extend(ill_formed_reasons(c, n))
+        out.extend(ill_formed_reasons(c, tuple(parents) + (n,)))
     return out
 
 
@@ -54,7 +63,8 @@ def plants():
             ("invalid field name", lambda: T.SearchField("bad name", W("v"))), ("field name with a star in the middle", lambda: T.SearchField("foo*bar", W("v"))),
             ("operation as field expression", lambda: T.SearchField("f", T.AndOperation(W("a"), W("b")))),
             ("prefix as field expression", lambda: T.SearchField("f", T.Prohibit(W("a")))), ("field as field expression", lambda: T.SearchField("f", T.SearchField("g", W("a")))),
-            ("group directly in a field", lambda: T.SearchField("f", T.Group(W("a")))), ("stray field group", lambda: T.FieldGroup(W("a")))]
+            ("group directly in a field", lambda: T.SearchField("f", T.Group(W("a")))), ("stray field group", lambda: T.FieldGroup(W("a"))),
+            ("boosted stray field group", lambda: T.Boost(T.FieldGroup(W("a")), 2))]
 
 
 def positions(t):
@@ -146,12 +156,21 @@ def main():
               ("hand: none item", T.NONE_ITEM), ("hand: term", T.Term("x")), ("hand: base group", T.BaseGroup(W("a"))), ("hand: fuzzy zero", T.Fuzzy(W("a"), 0)), ("hand: fuzzy -inf", T.Fuzzy(W("a"), "-Infinity")),
               ("hand: fuzzy huge", T.Fuzzy(W("a"), "-1e400")), ("hand: boost inf", T.Boost(W("a"), "Infinity")),
               ("hand: open ranges", T.AndOperation(T.From(W("1")), T.To(T.Phrase('"z"'), include=False))), ("hand: field with range", T.SearchField("f", T.Range(W("1"), W("2")))),
-              ("hand: field with regex", T.SearchField("f_1", T.Regex("/a+/"))), ("hand: unicode field", T.SearchField("été", W("x")))]
+              ("hand: field with regex", T.SearchField("f_1", T.Regex("/a+/"))), ("hand: unicode field", T.SearchField("été", W("x"))),
+              ("hand: field group under a group under a boost in a field", T.SearchField("f", T.Boost(T.Group(T.FieldGroup(W("a"))), 2))),
+              ("hand: field group under boosts in a field", T.SearchField("f", T.Boost(T.Boost(T.Boost(T.FieldGroup(T.OrOperation(W("a"), W("b"))), 1), 2), 3)))]
+    fg, wd, gp = T.FieldGroup(W("a")), W("two words"), T.Group(W("a"))
+    items += [("hand: the same field group object in a field and outside", T.AndOperation(T.SearchField("f", fg), fg)),
+              ("hand: the same ill-formed word object twice", T.OrOperation(T.Group(wd), T.Not(wd))),
+              ("hand: the same group object at the root level and in a field", T.UnknownOperation(gp, T.SearchField("f", gp))),
+              ("hand: the same well-formed subtree twice", T.AndOperation(gp, T.Plus(gp)))]
+    items += [(q, q) for q in ("f:(a b)^2", "f:(a OR b)^2^3 AND c", "(a b)^2", "f:(a AND g:(b c)^2)^3", "-f:(a b)^0.5 +g:\"x y\"~2^3", "f:[1 TO 2]^2 OR f:(x)^1",
+                               "NOT f:(a~2 b)^4 c", "f:((a b)^2)", "f:(a)^2^3^4^5")]
     res = pmap(check, items)
     failures = [f for r in res for f in r[1]]
     rest, hit = classify(failures, p.get("known", []))
     emit({"ok": not rest, "evaluations": sum(r[0] for r in res), "distinct_nontrivial": len(items),
-          "rule": "accepted token sequences of <= %d tokens + 12 hand-built trees; each well-formed tree also with each of 16 ill-formed constructs planted at a "
+          "rule": "accepted token sequences of <= %d tokens + 21 hand-built trees (4 with one object at two positions) + 9 parsed queries with boosted field groups; each well-formed tree also with each of 17 ill-formed constructs planted at a "
                   "position reachable through operations, groups, fields, boosts and prefixes; zeal 0 and 1; fresh and long-lived checker; distinct = trees" % p["max_tokens"],
           "bound": "token sequences <= %d" % p["max_tokens"], "samples": [{"query": "f:(a b) AND c", "planted": "word containing whitespace"}],
           "failures": rest[:40], "known": hit, "known_covered": len(failures) - len(rest)})
